@@ -215,7 +215,7 @@ def Cond.applies (E : Ext) (c : Cond) (ev : FMap) (ctx : Ctx) : Res :=
     | .eventMatch key pattern => checkEventMatch E ev key pattern ctx
     | .containsDisplayName =>
       match ev.getStr kContentBody with
-      | some v => matchesPattern E v ctx.displayName true
+      | some v => containsWord E v ctx.displayName
       | none => .ok false
     | .roomMemberCount is => .ok (is.contains ctx.memberCount)
     | .senderNotificationPermission key => .ok (senderMayNotify E ev ctx key)
